@@ -1,6 +1,7 @@
 package vc
 
 import (
+	"os"
 	"fmt"
 	"hash/fnv"
 	"strings"
@@ -332,6 +333,8 @@ type Slicer struct {
 	declIndex map[int][]int  // declared item -> assumptions whose closure contains it
 	itemHash  []uint64
 	asHash    []uint64
+	guards    []map[string]bool
+	guardDone []bool
 }
 
 func (g *Gen) deps(i int) []int {
@@ -478,9 +481,78 @@ func (s *Slicer) Script(cond string) string {
 	return b.String()
 }
 
+// literals flattens a Boolean term into the literals of its top-level conjunction, looking
+// through the definitions of named terms: name -> polarity (true: the name holds). Anything
+// that is not a conjunction, a negated name or a name is skipped.
+func (g *Gen) literals(t string, pol bool, out map[string]bool, depth int) {
+	t = strings.TrimSpace(t)
+	if depth > 64 || t == "" || t == "true" {
+		return
+	}
+	if strings.HasPrefix(t, "(not ") && balanced(t[5:len(t)-1]) {
+		inner := strings.TrimSpace(t[5 : len(t)-1])
+		if !strings.HasPrefix(inner, "(") {
+			if d, ok := g.boolDef[inner]; ok && strings.HasPrefix(d, "(not ") {
+				g.literals(d, !pol, out, depth+1) // not (not x)
+				return
+			}
+			out[inner] = !pol
+		}
+		return
+	}
+	if !pol {
+		return
+	}
+	if strings.HasPrefix(t, "(and ") {
+		for _, p := range splitSexp(t[5 : len(t)-1]) {
+			g.literals(p, true, out, depth+1)
+		}
+		return
+	}
+	if !strings.HasPrefix(t, "(") {
+		out[t] = true
+		if d, ok := g.boolDef[t]; ok && (strings.HasPrefix(d, "(and ") || strings.HasPrefix(d, "(not ")) {
+			g.literals(d, true, out, depth+1)
+		}
+	}
+}
+
+// contradicts reports whether an assumption of the form (=> guard fact) is guarded by a
+// literal whose complement the goal asserts: such an assumption says nothing on the paths
+// the goal is about (it belongs to another branch), and leaving it out only weakens the
+// hypotheses.
+func (s *Slicer) contradicts(ai int, goal map[string]bool) bool {
+	if s.guards == nil {
+		s.guards = make([]map[string]bool, len(s.g.assumes))
+		s.guardDone = make([]bool, len(s.g.assumes))
+	}
+	if !s.guardDone[ai] {
+		s.guardDone[ai] = true
+		a := s.g.assumes[ai]
+		if strings.HasPrefix(a, "(=> ") {
+			parts := splitSexp(a[4 : len(a)-1])
+			if len(parts) == 2 {
+				m := map[string]bool{}
+				s.g.literals(parts[0], true, m, 0)
+				s.guards[ai] = m
+			}
+		}
+	}
+	for name, pol := range s.guards[ai] {
+		if gp, ok := goal[name]; ok && gp != pol {
+			return true
+		}
+	}
+	return false
+}
+
 // sel computes the items and assumptions of the slice for cond.
 func (s *Slicer) sel(cond string) (map[int]bool, []bool) {
 	g := s.g
+	goal := map[string]bool{}
+	if os.Getenv("IONVC_NOPRUNE") == "" {
+		g.literals(cond, true, goal, 0)
+	}
 	in := map[int]bool{}
 	var start []int
 	g.symbolsIn(cond, func(k int) { start = append(start, k) })
@@ -503,6 +575,9 @@ func (s *Slicer) sel(cond string) (map[int]bool, []bool) {
 		visited[d] = true
 		for _, ai := range s.declIndex[d] {
 			if asIn[ai] {
+				continue
+			}
+			if len(goal) > 0 && s.contradicts(ai, goal) {
 				continue
 			}
 			asIn[ai] = true
